@@ -1,11 +1,13 @@
 import Driver.Util
 import Driver.Base64
+import Driver.Mime
 
 open Drv
 
 def dispatch (line : String) : String :=
   let ws := words line
-  match base64Op ws with
+  let ops : List (List String → Option String) := [base64Op, mimeOp]
+  match ops.findSome? (fun f => f ws) with
   | some r => r
   | none => "bad-op"
 
